@@ -420,6 +420,9 @@ func (runInfo *runInfoStruct) invokeLetDerefExpr(expr *ast.DerefExpr) {
 	if runInfo.err != nil {
 		return
 	}
+	if runInfo.rv.Kind() == reflect.Interface && !runInfo.rv.IsNil() {
+		runInfo.rv = runInfo.rv.Elem()
+	}
 
 	runInfo.rv.Elem().Set(value)
 	runInfo.rv = value
